@@ -1050,6 +1050,39 @@ def with_validity(text, rng):
         out.append(l)
     return "\n".join(out)
 
+ENUM_SLICES = 20
+
+def enum_small(slice_no):
+    """Exhaustive small scope (thorough tier): every scenario of a tiny grammar — system A (run-0 body of at most two
+    actions, registered on one trigger), system B (at most one action, one trigger, persistent or revokable), one top-level
+    trigger, end of frame — cut into ENUM_SLICES slices. About 250 000 scenarios in all."""
+    ALPH = ["run s0", "run s1", "sysevent s0 0 %d", "sysevent s1 0 %d", "broadcast 0 %d", "entevent e0 0 %d", "resmut 0",
+            "despawn e0", "despawn s0", "despawn s1", "revoke t0", "mutate e0 0 1", "remove e0 0", "insert e0 0 2"]
+    bodiesA = [[]] + [[a] for a in ALPH] + [[a, b] for a in ALPH for b in ALPH]
+    bodiesB = [[]] + [[a] for a in ALPH]
+    trigA = ["bc:0", "eev:e0:0"]; trigB = ["bc:0", "res:0", "dsp:e0", "emut:e0:0"]; modeB = ["p", "r"]
+    tops = ["broadcast 0 %d", "entevent e0 0 %d", "run s0", "resmut 0", "mutate e0 0 2"]
+    k = 0
+    for A in bodiesA:
+        for B in bodiesB:
+            for ta in trigA:
+                for tb in trigB:
+                    for mb in modeB:
+                        for top in tops:
+                            k += 1
+                            if k % ENUM_SLICES != slice_no % ENUM_SLICES: continue
+                            pid = [0]
+                            def sub(a):
+                                if "%d" in a:
+                                    pid[0] += 1
+                                    return a % pid[0]
+                                return a
+                            out = ["def 0 2", "run %d" % len(A)] + [sub(a) for a in A] + ["run 0",
+                                   "def 0 2", "run %d" % len(B)] + [sub(b) for b in B] + ["run 0",
+                                   "top acts 4", "spawn", "insert e0 0 1", "on p 0 %s" % ta, "on %s 1 %s" % (mb, tb),
+                                   "top acts 1", sub(top), "top frameend"]
+                            yield "\n".join(out) + "\n"
+
 def generate(prof, seed):
     text = PROFILES[prof](random.Random(seed))
     return with_validity(text, random.Random(seed ^ 0x5eed))
